@@ -39,6 +39,8 @@ template <typename T>
 extern std::vector<std::vector<T>> Transpose_Lists(const std::vector<std::vector<T>>& lists)
 {
 	unsigned int N = lists.size();
+	if(N == 0)
+		return {};
 	unsigned int M = lists[0].size();
 	for(unsigned int i = 1; i < N; i++)
 		if(lists[i].size() != M)
